@@ -9,7 +9,7 @@ DECIDES = ('for refine_knotvector x {curve, surface u/v, volume u/v/w}: every bl
            'helpers.knot_refinement (default knot list, density 1 and 2, with and without added knots) returns as knot vector exactly the sorted merge '
            'of the old knots and of every refined knot - the distinct old knots of the domain, the added knots and the bisection midpoints - each '
            'repeated degree - multiplicity times: bisection counts and resulting multiplicities, no slot left at its initial fill (KR1); the refined '
-           'net has one defined cell per control point of the refined vector (SK3). the unweighted-points / weights views of rational shapes cannot survive the replacement of the net (IV1 restricted to these caches).')
+           'net has one defined cell per control point of the refined vector (SK3). the unweighted-points / weights views of rational shapes cannot survive the replacement of the net (IV1 restricted to these caches). both pluggable span searches return the non-empty half-open span for parameters on knots of any multiplicity (OT1), which evaluation after refinement relies on.')
 NOT_DECIDED = 'shape invariance itself: the alpha blending values of A5.4 and the resulting control point coordinates are numerical.'
 TECHNIQUE = 'axis-tag dataflow, stride rule in polynomial normal form, structural gather/scatter rules, CFG reaching definitions, interpretation of the comparison skeleton over knot order types'
 
@@ -22,6 +22,7 @@ def check(m, run):
     from .. import rules_state as rs
     rs.iv1(m, run, [('NURBS', 'Curve'), ('NURBS', 'Surface'), ('NURBS', 'Volume')], caches_filter=lambda c: c in ("_cache['ctrlpts']", "_cache['weights']"))
     from .. import skel_drivers
+    skel_drivers.c03_order(m, run)      # refined knot vectors have interior knots of full multiplicity: both pluggable span searches must skip the empty spans
     skel_drivers.c05(m, run)
     run.floor('KR1.refined-knot-vector-is-the-sorted-merge', 2, 'rows and slabs')
     run.assume('order-type abstraction: distinct knots differ by more than the tolerance of knot_refinement (1e-7) and of find_multiplicity')
